@@ -210,9 +210,63 @@ fn emit_open(out: &mut impl Write, be: Be, key: &[u8], tok: &str, aad: &[u8], wa
     writeln!(out, "loc.open {} {} {} {} want={}", be.name(), hex(key), hex(tok.as_bytes()), hex(aad), want).unwrap();
 }
 
+/// every message length 0..=top (and, at a fixed message, every footer / assertion length): the valid token opens and a
+/// same-length forgery of each authenticated piece (one bit of the message / ciphertext, of the footer, of the assertion) is
+/// rejected.  A writer / buffering adapter that mishandles one particular offset of the authenticated stream shows here.
+pub fn gen_len_sweep(out: &mut impl Write, r: &mut Rng, thorough: bool) {
+    let top = if thorough { 300 } else { 150 };
+    for be in ALL_BE {
+        let nl = local_nonce_len(be);
+        let key = r.bytes(32);
+        let sk = gen_secret(be);
+        let pk = public_of(be, &sk);
+        let sl = sig_len(be);
+        for l in 0..=top {
+            // (message, footer, assertion) lengths: sweep one, keep the others small
+            let shapes: Vec<(usize, usize, usize)> = if be.has_aad() { vec![(l, 0, 0), (3, l, 0), (3, 2, l)] } else { vec![(l, 0, 0), (3, l, 0)] };
+            for (si, (ml, fl, al)) in shapes.into_iter().enumerate() {
+                if si > 0 && l == 0 { continue; }
+                if be == Be::V1 && si > 0 && l % 4 != 0 { continue; }      // RSA signing is slow: thinner sweep of footer lengths
+                let msg = r.pattern(ml); let f = r.bytes(fl); let a = r.bytes(al);
+                let nonce = r.bytes(nl);
+                if let Some(tok) = seal_local(be, &key, &nonce, &msg, &f, &a) {
+                    emit_open(out, be, &key, &tok, &a, &format!("ok:{}", hex(&msg)));
+                    let hdr = format!("v{}.local.", be.version());
+                    let mut payload = unb64(tok[hdr.len()..].split('.').next().unwrap());
+                    let mk = |p: &[u8], f: &[u8]| -> String { let mut s = format!("{hdr}{}", b64(p)); if !f.is_empty() { s.push('.'); s.push_str(&b64(f)); } s };
+                    if ml > 0 {
+                        let at = nl + (l * 7 + 3) % ml;
+                        payload[at] ^= 1 << (l % 8);
+                        emit_open(out, be, &key, &mk(&payload, &f), &a, "err");
+                        payload[at] ^= 1 << (l % 8);
+                    }
+                    if fl > 0 { let mut f2 = f.clone(); f2[(l * 5) % fl] ^= 1 << (l % 8); emit_open(out, be, &key, &mk(&payload, &f2), &a, "err"); }
+                    if al > 0 { let mut a2 = a.clone(); a2[(l * 3) % al] ^= 1 << (l % 8); emit_open(out, be, &key, &tok, &a2, "err"); }
+                }
+                if be == Be::V1 && l % 4 != 0 { continue; }
+                if let Some(tok) = sign_own(be, &sk, &msg, &f, &a) {
+                    emit_popen(out, be, &pk, &tok, &a, &format!("ok:{}", hex(&msg)));
+                    let hdr = format!("v{}.public.", be.version());
+                    let mut payload = unb64(tok[hdr.len()..].split('.').next().unwrap());
+                    let mk = |p: &[u8], f: &[u8]| -> String { let mut s = format!("{hdr}{}", b64(p)); if !f.is_empty() { s.push('.'); s.push_str(&b64(f)); } s };
+                    if ml > 0 && payload.len() == ml + sl {
+                        let at = (l * 7 + 3) % ml;
+                        payload[at] ^= 1 << (l % 8);
+                        emit_popen(out, be, &pk, &mk(&payload, &f), &a, "err");
+                        payload[at] ^= 1 << (l % 8);
+                    }
+                    if fl > 0 { let mut f2 = f.clone(); f2[(l * 5) % fl] ^= 1 << (l % 8); emit_popen(out, be, &pk, &mk(&payload, &f2), &a, "err"); }
+                    if al > 0 { let mut a2 = a.clone(); a2[(l * 3) % al] ^= 1 << (l % 8); emit_popen(out, be, &pk, &tok, &a2, "err"); }
+                }
+            }
+        }
+    }
+}
+
 pub fn gen_c02(out: &mut impl Write, seed: u64, thorough: bool) {
     let mut r = Rng::new(seed ^ 0xC02);
     gen_c02_public(out, &mut r, thorough);
+    gen_len_sweep(out, &mut r, thorough);
     let ntok = if thorough { 60 } else { 8 };
     for be in ALL_BE {
         let nl = local_nonce_len(be);
@@ -576,6 +630,26 @@ pub fn gen_c03(out: &mut impl Write, seed: u64, thorough: bool) {
 /// instance and offered to the implementation, and compared between sibling back ends
 pub fn gen_c15w(out: &mut impl Write, seed: u64, thorough: bool) {
     let mut r = Rng::new(seed ^ 0xC15F);
+    // every message length 0..=200 (the offset of each later piece in the authenticated stream takes every residue of
+    // every buffer size up to 128): injected-nonce token byte-compared with the model, specification-built token offered to the back end
+    for be in ALL_BE {
+        let nl = local_nonce_len(be);
+        let sk = gen_secret(be);
+        let pk = public_of(be, &sk);
+        let key = r.bytes(32);
+        for ml in 0..=(if thorough { 400usize } else { 200 }) {
+            let msg = r.pattern(ml);
+            let f = if ml % 3 == 0 { r.bytes(ml % 5) } else { vec![] };
+            let a = if be.has_aad() && ml % 4 == 1 { r.bytes(ml % 7) } else { vec![] };
+            let n = r.bytes(nl);
+            writeln!(out, "loc.seal {} {} {} {} {} {}", be.name(), hex(&key), hex(&n), hex(&msg), hex(&f), hex(&a)).unwrap();
+            writeln!(out, "m.spec.loc.seal {} {} {} {} {} {} | loc.open {} {} $ {} want=ok:{}", be.name(), hex(&key), hex(&n), hex(&msg), hex(&f), hex(&a), be.name(), hex(&key), hex(&a), hex(&msg)).unwrap();
+            if be != Be::V1 || ml % 8 == 0 {
+                let rnd = r.bytes(48);
+                writeln!(out, "m.pub.sign {} {} {} {} {} {} | pub.open {} {} $ {} want=ok:{}", be.name(), hex(&sk), hex(&msg), hex(&f), hex(&a), hex(&rnd), be.name(), hex(&pk), hex(&a), hex(&msg)).unwrap();
+            }
+        }
+    }
     let mlens: Vec<usize> = if thorough { vec![0, 1, 15, 16, 17, 63, 64, 65, 111, 112, 113, 127, 128, 129, 255, 256, 257, 383, 384, 385, 1000, 4096, 4097] } else { vec![0, 1, 64, 127, 128, 129, 256, 1000] };
     let flens: Vec<usize> = if thorough { vec![0, 1, 63, 64, 127, 128, 129, 256, 300, 1000] } else { vec![0, 1, 127, 128, 300] };
     for be in ALL_BE {
